@@ -118,6 +118,8 @@ class Gen:
     def number(self):
         r = self.r
         x = r.random()
+        if r.random() < 0.08:
+            return r.choice(['0', '0.00', '00', '0.'])       # zero: a value that is falsy in Python
         if x < 0.35:
             return str(r.randint(0, 999))
         if x < 0.7:
